@@ -724,6 +724,10 @@ def run(args):
             if "model" not in kv:
                 proof_problems.append("driver rejected a request: %s / %s" % (ans, rq[:300]))
                 continue
+            # hypothesis of the whole-slot theorem C09_slot (Props/C09.lean) evaluated by the driver on this case
+            dist["theorem-hypothesis:" + ("met" if kv.get("pre") == "1" else "not-met")] += 1
+            if kv.get("thm") != "ok":
+                proof_problems.append("C09_slot contradicted by the executable definitions: %s / %s" % (ans[:200], rq[:300]))
             if kv["spec"] != "ok":
                 sig = classify(c, probes)
                 known_hits[sig] += 1
